@@ -588,7 +588,17 @@ pub fn gen_stmt(r: &mut Rng, m: &Mix, spec: SpecId, n_inits: usize, depth_left: 
 
 pub fn gen_stmts(r: &mut Rng, m: &Mix, spec: SpecId, n_inits: usize) -> Vec<Stmt> {
     let n = r.range(m.len.0 as u64, m.len.1 as u64) as usize;
-    (0..n).map(|i| gen_stmt(r, m, spec, n_inits, n - i)).collect()
+    let mut out = Vec::with_capacity(n + 2);
+    for i in 0..n {
+        let s = gen_stmt(r, m, spec, n_inits, n - i);
+        if matches!(s, Stmt::SelfDestruct(_)) {
+            // data-dependent: only when a calldata-derived register is 0 mod k
+            out.push(Stmt::ModK(7, lreg(r), r.range(2, 5)));
+            out.push(Stmt::IfNonZeroSkip(7, 1));
+        }
+        out.push(s);
+    }
+    out
 }
 
 /// A random child (created-contract) blob: small constructor that writes storage, small runtime.
